@@ -26,7 +26,7 @@ pub fn parse_line(line: &str) -> Option<grep::GrepLine> {
                 grep_type: crate::config::GrepType::Ripgrep,
                 line_type: ripgrep_line._type,
                 line_number: ripgrep_line.data.line_number,
-                path: Cow::from(ripgrep_line.data.path.text),
+                path: Cow::from(visible_control_characters(ripgrep_line.data.path.text)),
                 code: Cow::from(code),
                 submatches: Some(
                     ripgrep_line
@@ -79,7 +79,7 @@ pub fn parse_line(line: &str) -> Option<grep::GrepLine> {
                             grep::LineType::Context
                         },
                         line_number: data["line_number"].as_u64().map(|n| n as usize),
-                        path: Cow::from(text_or_bytes(&data["path"])?),
+                        path: Cow::from(visible_control_characters(text_or_bytes(&data["path"])?)),
                         code: Cow::from(code),
                         // (the offsets refer to the bytes, not to the text they are shown as)
                         submatches: Some(Vec::new()),
@@ -92,6 +92,24 @@ pub fn parse_line(line: &str) -> Option<grep::GrepLine> {
                 }
             }
         }
+    }
+}
+
+/// A file name may contain a newline or other control characters (JSON carries them decoded):
+/// show them escaped, as git does, so that the name stays on its line.
+fn visible_control_characters(path: String) -> String {
+    if path.chars().any(|c| c.is_control()) {
+        path.chars()
+            .flat_map(|c| {
+                if c.is_control() {
+                    c.escape_default().collect()
+                } else {
+                    vec![c]
+                }
+            })
+            .collect()
+    } else {
+        path
     }
 }
 
